@@ -96,18 +96,23 @@ structure WF (s : Sol) : Prop where
   tri_ok : triOk s = true
   rstrip_ok : ∀ l ∈ render s, rstrip l = l
   comments_strip : ∀ c ∈ s.comments, strip c = c
-  hdrC_rstrip : rstrip s.hdrC = s.hdrC
+  hdrC_last : ∃ ch, s.hdrC.getLast? = some ch ∧ isSpace ch = false
 
 theorem wf_spec {s : Sol} (h : s.wf = true) : WF s := by
   simp only [Sol.wf, Bool.and_eq_true, beq_iff_eq, List.all_eq_true, decide_eq_true_eq] at h
   obtain ⟨⟨⟨⟨⟨⟨⟨⟨⟨⟨⟨⟨h1, h2⟩, h3⟩, h4⟩, h5⟩, h6⟩, h7⟩, h8⟩, h9⟩, h10⟩, h11⟩, h12⟩, h13⟩ := h
-  exact ⟨h1, h2, h3, h4, h5, h6, h7, fun x hx => by have := h8 x hx; exact ⟨this.1.1, this.1.2, this.2⟩, h9, h10, h11, h12, h13⟩
+  exact ⟨h1, h2, h3, h4, h5, h6, h7, fun x hx => by have := h8 x hx; exact ⟨this.1.1, this.1.2, this.2⟩, h9, h10, h11, h12, by
+    cases hl : s.hdrC.getLast? with
+    | none => simp [hl] at h13
+    | some ch => exact ⟨ch, rfl, by simpa [hl] using h13⟩⟩
 
 theorem wf_of_spec {s : Sol} (h : WF s) : s.wf = true := by
   simp only [Sol.wf, Bool.and_eq_true, beq_iff_eq, List.all_eq_true, decide_eq_true_eq]
   exact ⟨⟨⟨⟨⟨⟨⟨⟨⟨⟨⟨⟨h.hdrA_len, h.stamp_len⟩, h.hdrB_len⟩, h.hdrC_len⟩, h.hdrA_head⟩, h.comments_star⟩,
     h.site_code⟩, fun x hx => by have := h.soln_ok x hx; exact ⟨⟨this.1, this.2.1⟩, this.2.2⟩⟩, h.n_lt⟩, h.tri_ok⟩,
-    h.rstrip_ok⟩, h.comments_strip⟩, h.hdrC_rstrip⟩
+    h.rstrip_ok⟩, h.comments_strip⟩, by
+    obtain ⟨ch, h1, h2⟩ := h.hdrC_last
+    simp [h1, h2]⟩
 
 end Sinex
 
